@@ -79,6 +79,9 @@ def _run_impl_chunk(lines, mode="run", pad=0, timeout=120, noquarantine=False, h
                 cur = None
             elif ln.startswith("F ") and cur is not None:
                 res[cur]["live"] = ln[2:]
+            elif ln.startswith("G ") and cur is not None:
+                # verdict of the harness on the final state (C04: memory still held after everything died)
+                res[cur]["final"] = dict(x.split("=", 1) for x in ln[2:].split() if "=" in x)
             elif ln.startswith("A ") and cur is not None:
                 # written by the harness's signal handler when the library aborts the process: the call
                 # and the destructors started in it so far (the model's choice oracle for that call)
@@ -386,6 +389,9 @@ def oracle_hits(ires):
         if "oracle=" in ln:
             r = parse_line(ln)
             hits.append((r["idx"], r["extra"]["oracle"], r["extra"]))
+    fin = ires.get("final")
+    if fin and fin.get("oracle"):
+        hits.append(("F", fin["oracle"], fin))
     return hits
 
 
